@@ -1791,9 +1791,7 @@ def fcom(info, a):
     return e
 
 def ficom(info, a):
-    e = []
-    e += set_float_cs_eip(info)
-    return e
+    return fcom(info, ExprOp('int_%.2d_to_double'%a.get_size(), a))
 
 # Invalid emulation, only read/write analysis is valid
 # Emulation of fcomi / fcomip should possibly raise FPU exceptions
@@ -1812,6 +1810,7 @@ def fcomip(info, a):
     e.append(ExprAff(zf, ExprCond(cond, ExprInt_from(zf, 0), ExprInt_from(zf, 1))))
     e.append(ExprAff(pf, ExprCond(cond, ExprInt_from(zf, 0), ExprInt_from(zf, 1))))
     e.append(ExprAff(cf, ExprCond(cond, ExprInt_from(zf, 0), ExprInt_from(zf, 1))))
+    e += float_pop()
     return e
 
 def fucom(info, a):
@@ -1960,6 +1959,7 @@ def fsincos(info):
     e = float_push(ExprOp('cos', float_st0))
     e = [x for x in e if x.dst != float_st1]
     e.append(ExprAff(float_st1, ExprOp('sin', float_st0)))
+    e.append(ExprAff(float_stack_ptr, ExprOp('+', float_stack_ptr, ExprInt32(1))))
     return e
 
 def fdecstp(info):
@@ -1985,17 +1985,20 @@ def fadd(info, a, b = None):
     return e
 
 def faddp(info, a, b = None):
+    dst = a
     if b is None:
+        # one decoded operand: op st(i), st
         b = a
         a = float_st0
+        dst = b
     e = []
     if isinstance(b, ExprMem):
         src = ExprOp('mem_%.2d_to_double'%b.get_size(), b)
     else:
         src = b
-    e.append(ExprAff(float_prev(a), ExprOp('fadd', a, src)))
+    e.append(ExprAff(float_prev(dst), ExprOp('fadd', a, src)))
     e += set_float_cs_eip(info)
-    e += float_pop(a)
+    e += float_pop(dst)
     return e
 
 def fninit(info):
@@ -2120,77 +2123,92 @@ def fdivr(info, a, b = None):
 
 def fdivp(info, a, b = None):
     # Invalid emulation
+    dst = a
     if b is None:
+        # one decoded operand: op st(i), st
         b = a
         a = float_st0
+        dst = b
     e = []
     if isinstance(b, ExprMem):
         src = ExprOp('mem_%.2d_to_double'%b.get_size(), b)
     else:
         src = b
-    e.append(ExprAff(float_prev(a), ExprOp('fdiv', a, src)))
+    e.append(ExprAff(float_prev(dst), ExprOp('fdiv', a, src)))
     e += set_float_cs_eip(info)
-    e += float_pop(a)
+    e += float_pop(dst)
     return e
 
 def fdivrp(info, a, b = None):
     # Invalid emulation
+    dst = a
     if b is None:
+        # one decoded operand: op st(i), st
         b = a
         a = float_st0
+        dst = b
     e = []
     if isinstance(b, ExprMem):
         src = ExprOp('mem_%.2d_to_double'%b.get_size(), b)
     else:
         src = b
-    e.append(ExprAff(a, ExprOp('fdiv', src, a)))
+    e.append(ExprAff(float_prev(dst), ExprOp('fdiv', src, a)))
     e += set_float_cs_eip(info)
-    e += float_pop(a)
+    e += float_pop(dst)
     return e
 
 def fmulp(info, a, b = None):
     # Invalid emulation
+    dst = a
     if b is None:
+        # one decoded operand: op st(i), st
         b = a
         a = float_st0
+        dst = b
     e = []
     if isinstance(b, ExprMem):
         src = ExprOp('mem_%.2d_to_double'%b.get_size(), b)
     else:
         src = b
-    e.append(ExprAff(float_prev(a), ExprOp('fmul', a, src)))
+    e.append(ExprAff(float_prev(dst), ExprOp('fmul', a, src)))
     e += set_float_cs_eip(info)
-    e += float_pop(a)
+    e += float_pop(dst)
     return e
 
 def fsubp(info, a, b = None):
     # Invalid emulation
+    dst = a
     if b is None:
+        # one decoded operand: op st(i), st
         b = a
         a = float_st0
+        dst = b
     e = []
     if isinstance(b, ExprMem):
         src = ExprOp('mem_%.2d_to_double'%b.get_size(), b)
     else:
         src = b
-    e.append(ExprAff(float_prev(a), ExprOp('fsub', a, src)))
+    e.append(ExprAff(float_prev(dst), ExprOp('fsub', a, src)))
     e += set_float_cs_eip(info)
-    e += float_pop(a)
+    e += float_pop(dst)
     return e
 
 def fsubrp(info, a, b = None):
     # Invalid emulation
+    dst = a
     if b is None:
+        # one decoded operand: op st(i), st
         b = a
         a = float_st0
+        dst = b
     e = []
     if isinstance(b, ExprMem):
         src = ExprOp('mem_%.2d_to_double'%b.get_size(), b)
     else:
         src = b
-    e.append(ExprAff(a, ExprOp('fdiv', src, a)))
+    e.append(ExprAff(float_prev(dst), ExprOp('fsub', src, a)))
     e += set_float_cs_eip(info)
-    e += float_pop(a)
+    e += float_pop(dst)
     return e
 
 def fiadd(info, a):
@@ -2242,9 +2260,12 @@ def fcmovX(info, a):
     return e
 
 def fxam(info):
-    # Invalid emulation
+    # the class of st(0), one uninterpreted operator per condition bit
     e = []
-    e.append(ExprAff(float_c0, float_st0))
+    e.append(ExprAff(float_c0, ExprOp('fxam_c0', float_st0)))
+    e.append(ExprAff(float_c1, ExprOp('fxam_c1', float_st0)))
+    e.append(ExprAff(float_c2, ExprOp('fxam_c2', float_st0)))
+    e.append(ExprAff(float_c3, ExprOp('fxam_c3', float_st0)))
     return e
 
 def ftan(info, a):
